@@ -7,7 +7,7 @@ from typing import Any
 from sa.casesplit import equivalent
 from sa.checks.c14 import ENC, cols, limit_of, summarise
 from sa.checks.ibl_rules import build_model, c01_rules
-from sa.guards import GuardWalk, is_opaque
+from sa.guards import opaque_note, GuardWalk, is_opaque
 from sa.kern import make_evaluator, py_calls
 from sa.report import Ctx
 from sa.srcmodel import desugared, FuncInfo, func_body, inline_locals
@@ -142,6 +142,7 @@ def _constructor_accepts(ctx: Ctx) -> dict[str, Any]:
                     pass
     ctx.ob("D1.1", new, rej.node if rej else new.node, rej is not None,
            f"items are rejected when [{show_cond(rej.cond)}]" if rej else
+           opaque_note(gw.exits, lambda e: bool(e.loops)) +
            "no rejection of items that exceed min(bin_width, bin_height) "
            "in both dimensions", construct="item rejection")
     return {"ok": ok_b and rej is not None, "rej": rej, "mx": mx, "mn": mn,
